@@ -354,7 +354,10 @@ class TableCopula:
         return x
 
 
-def table_copula_model(table: Table2, a=(0.0, 0.0), sigma=(0.0, 0.0), strict=True):
+def table_copula_model(table: Table2, a=(0.0, 0.0), sigma=(0.0, 0.0), strict=True, fv=(True, True)):
     from rpylib.model.levycopulamodel import LevyCopulaModel
-    models = [StepModel(table.margin(k, strict=strict), a=a[k], sigma=sigma[k]) for k in (0, 1)]
+    margins = [table.margin(k, strict=strict and all(fv)) for k in (0, 1)]
+    for m, f in zip(margins, fv):
+        m.finite_variation = f      # an 'infinite variation' flag makes the library add the central cell's variance (nquad: inexact calls)
+    models = [StepModel(margins[k], a=a[k], sigma=sigma[k]) for k in (0, 1)]
     return LevyCopulaModel(models, table.copula())
